@@ -13,6 +13,8 @@ Structural clauses decided:
     worker loop passes it
  R9 the three raw_filter.rs copies agree per helper on the constants examined and the byte-order conversions applied; quick
     extractor and full parser try the link-layer interpretations in the same order (Ethernet, raw IP, NULL)
+ R9 (also) quick extractor and full parser try the link-layer interpretations in the same order (Ethernet, raw IP, NULL)
+ R8 (also) every process_packet call site of the worker loop passes the worker's filter
 """
 from ..engine import cfg as C
 from ..engine import q as Q
